@@ -12,6 +12,7 @@ class _JumpMarker:
 class CodeGen:
     def __init__(self):
         self._code = []
+        self._relocated = 0
 
     @property
     def program(self):
@@ -19,10 +20,16 @@ class CodeGen:
 
     @property
     def current_offset(self) -> int:
-        return len(self._code)
+        # Routine bodies are moved out of line by the loader, so they don't
+        # count for relative branches in the code around them.
+        return len(self._code) - self._relocated
 
     def clear(self) -> None:
         self._code.clear()
+        self._relocated = 0
+
+    def relocated(self, count) -> None:
+        self._relocated += count
 
     def push(self, operand) -> None:
         self.add_instruction(self._push_op(operand), operand)
